@@ -39,7 +39,7 @@ type c19Case struct {
 	ExpiryMs int `json:"expiry_ms,omitempty"`
 }
 
-var c19Kinds = []string{"writer", "writer", "writer", "reader", "reader", "streamer", "watcher", "compactor", "compactor", "locker", "describer", "faulty"}
+var c19Kinds = []string{"writer", "writer", "writer", "reader", "reader", "streamer", "watcher", "compactor", "compactor", "twincompactor", "locker", "describer", "faulty"}
 
 func genC19(t *rapid.T) interface{} {
 	c := &c19Case{Engine: EnvStr("VERIF_ENGINE", EngMem)}
@@ -173,7 +173,9 @@ func runC19(ci interface{}, st *CaseStats) error {
 		return Pass
 	}
 	// a small event cache wraps quickly (watches that start inside it read slots the sequencer is about to reuse)
-	b := NewTestBackend(shim, BackendOpts{CacheSize: []int{4, 8, 64}[len(c.Workers)%3], Etcd: true})
+	// skipped prefixes as the repeated --skip-key-prefix flag builds them: a slice with spare capacity
+	skipped := append(make([]string, 0, 4), Prefix+"/skipped", Prefix+"/other")
+	b := NewTestBackend(shim, BackendOpts{CacheSize: []int{4, 8, 64}[len(c.Workers)%3], Etcd: true, Skipped: skipped})
 	defer func() {
 		StopBackend(b)
 		time.Sleep(time.Millisecond)
@@ -313,6 +315,28 @@ func runC19(ci interface{}, st *CaseStats) error {
 					}
 					time.Sleep(time.Duration(w.Seed%3) * 100 * time.Microsecond)
 				}
+			case "twincompactor":
+				// two compaction requests that start at the same instant (a client retrying, the background loop and an
+				// explicit request): their first steps run side by side
+				for i := 0; i < w.N/4+1; i++ {
+					cur := b.GetCurrentRevision()
+					if cur <= InitRev+2 {
+						time.Sleep(200 * time.Microsecond)
+						continue
+					}
+					var tw sync.WaitGroup
+					gate := make(chan struct{})
+					for j := 0; j < 2; j++ {
+						tw.Add(1)
+						go func(j int) {
+							defer tw.Done()
+							<-gate
+							_, _ = b.Compact(ctx, cur-uint64(j))
+						}(j)
+					}
+					close(gate)
+					tw.Wait()
+				}
 			case "describer":
 				// what request handlers do on every rejected write / follower read: read the lock description
 				rl := b.GetResourceLock()
@@ -405,7 +429,7 @@ func runC19(ci interface{}, st *CaseStats) error {
 
 var specC19 = &Spec{
 	ID:   "C19",
-	Rule: "binary built with -race; case = 4..16 free-running goroutines, each one of: writer (create/update/delete with expectations from its own observations), reader (get / list / limited list / count / partitions), streamer (range stream), watcher (open, drain, cancel), compactor (compaction trailing by 0..5 revisions), locker (the node's single elector: resource-lock get/create/update), describer (lock description reads, as request handlers do), faulty writer (every third commit answered 'outcome unknown' so that the background repair loop runs with 3 ms / 1 ms intervals), 5..60 operations each, on memkv and Badger; expiry shards set the Events TTL to 1 s, write Event keys and keep light traffic going for 1.1..1.3 s so that the engine's native expiry (memkv timers, Badger TTL) happens while requests run. Oracle = the race detector (GORACE=halt_on_error=0, reports read from its log after each case and reduced to the pair of innermost frames inside kubebrain or the in-process engine's skip list); a panic in a request is a violation too. Non-trivial = at least two different request kinds overlapped in time (measured from recorded windows); distinct = SHA-1 of the case",
+	Rule: "binary built with -race; case = 4..16 free-running goroutines, each one of: writer (create/update/delete with expectations from its own observations), reader (get / list / limited list / count / partitions), streamer (range stream), watcher (open, drain, cancel), compactor (compaction trailing by 0..5 revisions), twin compactor (two compaction requests released at the same instant), locker (the node's single elector: resource-lock get/create/update), describer (lock description reads, as request handlers do), faulty writer (every third commit answered 'outcome unknown' so that the background repair loop runs with 3 ms / 1 ms intervals), 5..60 operations each, on memkv and Badger; expiry shards set the Events TTL to 1 s, write Event keys and keep light traffic going for 1.1..1.3 s so that the engine's native expiry (memkv timers, Badger TTL) happens while requests run. Oracle = the race detector (GORACE=halt_on_error=0, reports read from its log after each case and reduced to the pair of innermost frames inside kubebrain or the in-process engine's skip list); a panic in a request is a violation too. Non-trivial = at least two different request kinds overlapped in time (measured from recorded windows); distinct = SHA-1 of the case",
 	Gen:  genC19,
 	New:  func() interface{} { return &c19Case{} },
 	Run:  runC19,
